@@ -9,6 +9,7 @@ import RV.Base.Proto
         l = Literal(v); valid = lexical form in the XSD lexical space (Lean recogniser); back = value of re-reading it
     eq <lit> <lit>                       → eq|term-equal|eq-result           lit = L <dt|-> <cps> <0|1> | P <pyspec>
     spell 0|1                            → ok      (also print the exact lexical forms; development diagnostic)
+    skip                                 → unmodelled   (the harness declares the case outside the model)
   pyspec: int i | bool 0|1 | dec 0|1 coeff exp | str cps | date y m d | time h mi s us tz|- |
           datetime y m d h mi s us tz|- | td us | dur years months us
   Answers `unmodelled` outside the fragment the model declares (`inFragment`), `bad-op` on anything else.
@@ -184,6 +185,7 @@ def eqLine (a b : LitR) : String :=
   | _, _ => "eq|raise"
 
 def step (st : St) : List String → St × String
+  | ["skip"] => (st, "unmodelled")
   | ["spell", b] => if b = "1" then (⟨true⟩, "ok") else if b = "0" then (⟨false⟩, "ok") else (st, "bad-op")
   | ["lex", d, s] =>
     match dt? d, cps? s with
